@@ -1,9 +1,10 @@
 #!/usr/bin/env python3
 """Semantics-preserving rewrites of /repo/bt/*.py into a scratch tree (development aid): the checks must not raise a VIOLATION on them.
-usage: refactor.py <kind> <outdir>    kind: ifswap | augassign | rename"""
+usage: refactor.py <kind> <outdir> [<srcdir>]   kind: ifswap | augassign | rename | comp2for | elsereturn | tempvar; srcdir defaults to /repo"""
 import ast, os, shutil, sys
 
 kind, out = sys.argv[1], sys.argv[2]
+SRC = os.path.join(sys.argv[3] if len(sys.argv) > 3 else "/repo", "bt")
 os.makedirs(os.path.join(out, "bt"), exist_ok=True)
 
 
@@ -38,11 +39,69 @@ class Rename(ast.NodeTransformer):
         return fn
 
 
-T = {"ifswap": IfSwap, "augassign": Aug, "rename": Rename}[kind]
-for f in os.listdir("/repo/bt"):
+class Comp2For(ast.NodeTransformer):
+    """a list comprehension used as a statement (for its side effects) becomes a for loop"""
+
+    def visit_Expr(self, n):
+        v = n.value
+        if isinstance(v, ast.ListComp) and len(v.generators) == 1 and not v.generators[0].is_async:
+            g = v.generators[0]
+            body = [ast.Expr(value=v.elt)]
+            for cond in reversed(g.ifs):
+                body = [ast.If(test=cond, body=body, orelse=[])]
+            return ast.For(target=g.target, iter=g.iter, body=body, orelse=[])
+        return n
+
+
+class ElseReturn(ast.NodeTransformer):
+    """`if c: ...return/raise` followed by statements: the rest moves into an explicit else"""
+
+    def _block(self, stmts):
+        out = []
+        for i, st in enumerate(stmts):
+            st = self.visit(st)
+            if isinstance(st, ast.If) and not st.orelse and st.body and isinstance(st.body[-1], (ast.Return, ast.Raise)) and i + 1 < len(stmts):
+                rest = self._block(stmts[i + 1:])
+                st.orelse = rest
+                out.append(st)
+                return out
+            out.append(st)
+        return out
+
+    def visit_FunctionDef(self, fn):
+        fn.body = self._block(fn.body)
+        return fn
+
+
+class TempVar(ast.NodeTransformer):
+    """`return <expr>` becomes `_ret = <expr>; return _ret`, and `self.f = <call>` goes through a temporary"""
+
+    def visit_FunctionDef(self, fn):
+        self.generic_visit(fn)
+        if any(isinstance(x, (ast.Yield, ast.YieldFrom)) for x in ast.walk(fn)):
+            return fn
+
+        class R(ast.NodeTransformer):
+            def visit_FunctionDef(self, n):
+                return n
+
+            def visit_Lambda(self, n):
+                return n
+
+            def visit_Return(self, n):
+                if n.value is None or isinstance(n.value, (ast.Name, ast.Constant)):
+                    return n
+                return [ast.Assign(targets=[ast.Name(id="_ret", ctx=ast.Store())], value=n.value), ast.Return(value=ast.Name(id="_ret", ctx=ast.Load()))]
+
+        fn.body = [x for st in fn.body for x in (lambda r: r if isinstance(r, list) else [r])(R().visit(st))]
+        return fn
+
+
+T = {"ifswap": IfSwap, "augassign": Aug, "rename": Rename, "comp2for": Comp2For, "elsereturn": ElseReturn, "tempvar": TempVar}[kind]
+for f in os.listdir(SRC):
     if not f.endswith(".py"):
         continue
-    src = open(os.path.join("/repo/bt", f)).read()
+    src = open(os.path.join(SRC, f)).read()
     if f in ("core.py", "algos.py", "backtest.py"):
         tree = T().visit(ast.parse(src))
         ast.fix_missing_locations(tree)
